@@ -213,6 +213,14 @@ class Executor(Evaluator):
     def eval_multi(self, node, st):
         """evaluate an expression that may contain inlined calls with several return paths: list of (state, value)"""
         self._pending = None
+        if isinstance(node, ast.IfExp) and (self.has_forking_call(node.body, st) or self.has_forking_call(node.orelse, st)):
+            out = []
+            for s0, c in self.eval_multi(node.test, st):
+                if isinstance(c, Opaque):
+                    c = fresh_bool("opaque")
+                for s1, taken in self.branch(s0, c):
+                    out.extend(self.eval_multi(node.body if taken else node.orelse, s1))
+            return out
         if self.has_forking_call(node, st):
             return self.eval_forking(node, st)
         return [(st, self.eval(node, st))]
@@ -540,11 +548,16 @@ class Executor(Evaluator):
             gv = fresh_int(gname)
             st.pc.append(gv >= 0)
             post.env[gname] = gv
+        for gname in set(con.extra.get("ghost_results", {}).values()):
+            post.env[gname] = fresh_int(gname)
         post.ghost_env = genv
         post.old = pre
         for label, clause, tags in con.clauses("ensures"):
             st.pc.append(zbool(truth(self.eval_spec(clause, post, {}))))
         self.used_contracts.add(con.qualname)
+        gr = getattr(self.cur_contract, "extra", {}).get("ghost_results", {}) if self.cur_contract else {}
+        if node is not None and isinstance(node.func, ast.Name) and node.func.id in gr and self.module is self.fi.module:
+            st.env[gr[node.func.id]] = res
         return [(st, res)]
 
     used_contracts = set()
